@@ -1,7 +1,7 @@
 (* C12 — the hypotheses of the theorems are satisfiable, and the functions do what the comments say
    on small inputs (vm_compute). *)
 From Verif.Base Require Import Tactics.
-From Verif.C12 Require Import Model Proofs Proofs2 Proofs3 Proofs4.
+From Verif.C12 Require Import Extracted Model Proofs Proofs2 Proofs3 Proofs4.
 From Verif.C13 Require Extracted Model.
 Local Open Scope N_scope.
 
@@ -126,3 +126,10 @@ Qed.
 Example merge_loop_simple_pq :
   merge_loop_gen cmp_mtime (fun h x => x :: h) Proofs4.pop_min [t1; t2] = merge cmp_mtime sched_id [t1; t2].
 Proof. vm_compute. reflexivity. Qed.
+
+(* a destination holding the root tree of the snapshot but not the data below it (partial closure):
+   the walk starts from every snapshot root, so the data blob is still found and requested *)
+Example copy_partial_closure :
+  copy_walk_from_all_snapshot_trees = true /\
+  needed ex_tid (reach ex_tid t5) [(Tree, 1)] [t5] = [(Data, 3)].
+Proof. vm_compute. split; reflexivity. Qed.
